@@ -19,7 +19,7 @@ From FV.C13 Require Import Keywords.
 Import ListNotations.
 Open Scope nat_scope.
 
-Definition byte := N.
+Notation byte := N (only parsing).
 Definition nbeq (a b : N) : bool := N.eqb a b.
 Definition nble (a b : N) : bool := N.leb a b.
 
@@ -222,6 +222,25 @@ Fixpoint cont_ok (prev_ascii : bool) (t : list byte) : bool :=
   | b :: r => negb (prev_ascii && is_cont b) && cont_ok (N.ltb b 128) r
   end.
 Definition utf8_ok (t : list byte) : bool := cont_ok true t.
+
+(* Well-formed UTF-8 as far as byte classes go (lead byte, then the right
+   number of continuation bytes); every Rust `str` satisfies this. *)
+Fixpoint utf8_wf (t : list byte) : bool :=
+  match t with
+  | [] => true
+  | b :: r =>
+      if N.ltb b 128 then utf8_wf r
+      else if in_range 194 223 b then
+        match r with c1 :: r1 => is_cont c1 && utf8_wf r1 | _ => false end
+      else if in_range 224 239 b then
+        match r with c1 :: c2 :: r2 => is_cont c1 && is_cont c2 && utf8_wf r2 | _ => false end
+      else if in_range 240 244 b then
+        match r with
+        | c1 :: c2 :: c3 :: r3 => is_cont c1 && is_cont c2 && is_cont c3 && utf8_wf r3
+        | _ => false
+        end
+      else false
+  end.
 
 (* ------------------------------------------------------------------ *)
 (* Token tree                                                           *)
@@ -741,3 +760,28 @@ Fixpoint generate (fuel : nat) (g : graph) (bad : list ierr) (id : N) : option (
           end
       end
   end.
+
+(* nesting depth of the generate_recurse calls (1 for a file without includes) *)
+Fixpoint gen_depth (fuel : nat) (g : graph) (bad : list ierr) (id : N) : option nat :=
+  match fuel with
+  | O => None
+  | S f =>
+      match edges_of g id with
+      | None => Some 1
+      | Some es =>
+          match (fix go (l : list N) (i : nat) : option nat :=
+                   match l with
+                   | [] => Some 0
+                   | c :: r =>
+                       if skipped bad id i then go r (S i)
+                       else match gen_depth f g bad c, go r (S i) with
+                            | Some a, Some b => Some (Nat.max a b)
+                            | _, _ => None
+                            end
+                   end) es 0 with
+          | Some d => Some (S d)
+          | None => None
+          end
+      end
+  end.
+
